@@ -28,5 +28,10 @@ theorem valid_key_classes : ∀ c ∈ PCls.all, isInst c Gen.validKeyClasses = i
 /-- `member_index` turns TypeError / KeyError / IndexError of `operator.getitem` into error results, as `memberIndex` assumes -/
 theorem member_index_handlers : Exc.typeError ∈ Gen.handlers_member_index ∧ Exc.keyError ∈ Gen.handlers_member_index ∧
     Exc.indexError ∈ Gen.handlers_member_index := by decide
+/-- `CELJSONDecoder.decode` is still `json_to_cel` applied to what `json` parsed (the `dec` cases are compared against `jsonToCel`) -/
+theorem decode_applies_json_to_cel : Gen.decodeAppliesJsonToCel = true := by decide
+/-- `DurationType.__str__` as written now prints the same whole number of seconds as the model, for EVERY duration
+(`int(total_seconds())`: the truncated binary64 quotient; a floor division or a rounding is a different function) -/
+theorem dur_seconds (us : Int) : Gen.durSeconds us = durSeconds us := rfl
 
 end Cel.Bridge
